@@ -102,8 +102,19 @@ func evalMutant(repo string, m mutant) mutantOutcome {
 	}
 	c, _ := runProperty(pd, p)
 	rules := map[string]bool{}
+	known, _ := loadKnown(filepath.Join(verifDir(), "known_findings.txt"))
 	for _, o := range c.Obs {
 		if o.Verdict != "ok" {
+			// a recorded finding fails on the unmutated tree as well: it says nothing about the mutant
+			isKnown := false
+			for _, k := range known {
+				if k.Prop == m.Property && k.Rule == o.Rule && k.Construct == o.Construct {
+					isKnown = true
+				}
+			}
+			if isKnown {
+				continue
+			}
 			rules[o.Rule] = true
 		}
 	}
